@@ -17,7 +17,7 @@ import time
 from concurrent.futures import ThreadPoolExecutor
 
 VERIF = os.path.dirname(os.path.dirname(os.path.abspath(__file__)))
-PY = os.path.join(VERIF, ".venv", "bin", "python")
+PY = sys.executable
 HARNESS = {
     "C%02d" % i: "harness.c%02d" % i for i in range(1, 19)
 }
